@@ -7,6 +7,7 @@ import (
 	"bytes"
 	"fmt"
 	"strconv"
+	"strings"
 
 	"github.com/gobwas/ws"
 	"github.com/gobwas/ws/wsutil"
@@ -58,6 +59,39 @@ func init() {
 		u := one(func(r *chunkReader) (ws.Header, error) {
 			rd := wsutil.Reader{Source: r, SkipHeaderCheck: true}
 			return rd.NextFrame()
+		})
+		return "W:" + w + " U:" + u
+	}
+	// rhs <stream> <k> <fin> <n>: up to n headers decoded one after the other from one stream,
+	// by ws.ReadHeader and by ONE wsutil.Reader (SkipHeaderCheck): the decoder keeps no state
+	// from one header to the next.
+	ops["rhs"] = func(a []string) string {
+		data := unhx(a[0])
+		k, _ := strconv.Atoi(a[1])
+		fin := finErr(a[2])
+		n, _ := strconv.Atoi(a[3])
+		seq := func(f func(r *chunkReader) func() (ws.Header, error)) string {
+			cr := &chunkReader{data: data, k: k, fin: fin}
+			return guard(func() string {
+				next := f(cr)
+				var items []string
+				for i := 0; i < n; i++ {
+					h, err := next()
+					if err != nil {
+						items = append(items, fmt.Sprintf("err,%s,%d", classify(err), cr.pos))
+						break
+					}
+					items = append(items, fmt.Sprintf("ok,%s,%d", hdrStr(h), cr.pos))
+				}
+				return strings.Join(items, "|")
+			})
+		}
+		w := seq(func(r *chunkReader) func() (ws.Header, error) {
+			return func() (ws.Header, error) { return ws.ReadHeader(r) }
+		})
+		u := seq(func(r *chunkReader) func() (ws.Header, error) {
+			rd := &wsutil.Reader{Source: r, SkipHeaderCheck: true}
+			return rd.NextFrame
 		})
 		return "W:" + w + " U:" + u
 	}
@@ -154,6 +188,53 @@ func genC01(tier string, r *rng) {
 			fin = "F"
 		}
 		run(fmt.Sprintf("rh %s %d %s", hx(p), r.intn(5), fin))
+	}
+	// Several headers one after the other on one stream and one reader (all final, so the
+	// message reader is never inside a fragmented message): every ordered pair of
+	// masked/unmasked x length form, then random runs.
+	{
+		forms := []int64{0, 125, 126, 65535, 65536, 1 << 40}
+		mk := func(masked bool, l int64, i int) ws.Header {
+			h := ws.Header{Fin: true, Rsv: byte(i % 8), OpCode: ws.OpCode([]int{1, 2, 8, 9, 10, 3, 11}[i%7]), Length: l, Masked: masked}
+			if masked {
+				h.Mask = [4]byte{byte(0x11 + i), byte(0xa0 + i), 0x5c, byte(i)}
+			}
+			return h
+		}
+		i := 0
+		for _, m1 := range []bool{true, false} {
+			for _, m2 := range []bool{true, false} {
+				for _, l1 := range forms {
+					for _, l2 := range forms {
+						i++
+						if tier == "quick" && m1 == m2 && i%3 != 0 {
+							continue
+						}
+						var buf bytes.Buffer
+						ws.WriteHeader(&buf, mk(m1, l1, i))
+						ws.WriteHeader(&buf, mk(m2, l2, i+3))
+						ws.WriteHeader(&buf, mk(m1, l2, i+5))
+						run(fmt.Sprintf("rhs %s %d E 3", hx(buf.Bytes()), []int{0, 1, 5}[i%3]))
+					}
+				}
+			}
+		}
+		n := 300
+		if tier != "quick" {
+			n = 6000
+		}
+		for j := 0; j < n; j++ {
+			var buf bytes.Buffer
+			cnt := 2 + r.intn(4)
+			for c := 0; c < cnt; c++ {
+				ws.WriteHeader(&buf, mk(r.intn(2) == 0, c01Lens[r.intn(len(c01Lens))], r.intn(64)))
+			}
+			b := buf.Bytes()
+			if r.intn(5) == 0 {
+				b = b[:r.intn(len(b)+1)]
+			}
+			run(fmt.Sprintf("rhs %s %d %s %d", hx(b), r.intn(6), []string{"E", "E", "F"}[r.intn(3)], cnt))
+		}
 	}
 	// Whole frames with payload sizes straddling the 125/126 and 65535/65536 boundaries.
 	sizes := []int{0, 1, 2, 124, 125, 126, 127, 300, 65535, 65536, 65537}
